@@ -3,8 +3,8 @@ import collections
 from .. import lib, e2e
 
 PROP = "C01"
-THEOREMS = ["E2E.csr_route_eq_locate", "E2E.csr_items_ok", "E2E.route_eq_locate", "E2E.root_map_ok", "E2E.route_agrees_with_decode", "E2E.unassigned_reaches_nothing", "CsrT.tree_meets_spec", "Bridge.wb_read_through_tree", "Bridge.wb_write_is_atomic"]
-IMPORTS = ["SocVerif.Props.C01", "SocVerif.Props.C10E"]
+THEOREMS = ["E2E.csr_route_eq_locate", "E2E.csr_items_ok", "E2E.route_eq_locate", "E2E.root_map_ok", "E2E.route_agrees_with_decode", "E2E.unassigned_reaches_nothing", "CsrT.tree_meets_spec", "Bridge.wb_read_through_tree", "Bridge.wb_write_is_atomic", "E2ED.root_read_through_bridge", "E2ED.root_write_through_bridge", "E2ED.root_unassigned_bridge_silent", "E2ED.root_sram_read", "E2ED.root_sram_write", "E2ED.root_unassigned_sram_untouched", "E2ED.route_via_selected", "E2ED.concat_slice"]
+IMPORTS = ["SocVerif.Props.C01", "SocVerif.Props.C10E", "SocVerif.Props.C01D"]
 
 
 def _one(seed, idx):
